@@ -27,7 +27,7 @@ _set('C01', {
     'design_ref': '8/C01',
     'technique': 'Lean 4 theorems (kernel-checked, axioms audited) about a model tied to the code by a per-run correspondence check',
     'note': 'Trusted: Lean 4.33 kernel; axioms propext/Classical.choice/Quot.sound only (audited per theorem every run); the Lean specification (lean/DecimalModel/Spec); the hand-written Lean model of the Go methods (lean/DecimalModel), whose agreement with /repo is what the correspondence run of the same check samples on every run (Go harness + compiled Lean driver + line protocol); tools/gen for the regenerated parts.',
-    'text': "Theorems (Properties/C01.lean, 23; Proofs/Round RoundSpec Canonical Arith ArithOps AddFar): round_correct - the model's round equals the exact magnitude rounded once (all modes, signs, carries, exponent-range ends); add_correct, sub_correct, mul_correct, quo_correct - for ALL canonical finite operands, every receiver precision >= 1 (or 0: largest operand precision) and mode, the receiver holds exactly Spec.addSV/subSV/mulSV/quoSV = the infinitely precise result rounded once, value AND accuracy, including exact cancellation (sign of zero), underflow to a zero and overflow to an infinity; uquo always has prec+1 quotient digits so remainder = sticky is sound; set_correct, setPrec_correct, neg_correct, abs_correct (round, then change the sign); addForRound_sound - the far-apart shortcut of the executable oracle equals the plain exact sum. The L1 model replaces dec.add/sub/shl/mul/div by arithmetic, which Properties/C06 proves about the word-level code for all sizes.",
+    'text': "Theorems (Properties/C01.lean, 23; Proofs/Round RoundSpec Canonical Arith ArithOps AddFar): round_correct - the model's round equals the exact magnitude rounded once (all modes, signs, carries, exponent-range ends); add_correct, sub_correct, mul_correct, quo_correct - for ALL canonical finite operands, every receiver precision >= 1 (or 0: largest operand precision) and mode, the receiver holds exactly Spec.addSV/subSV/mulSV/quoSV = the infinitely precise result rounded once, value AND accuracy, including exact cancellation (sign of zero), underflow to a zero and overflow to an infinity; uquo always has prec+1 quotient digits so remainder = sticky is sound; set_correct, setPrec_correct, neg_correct, abs_correct (round, then change the sign); addForRound_sound - the far-apart shortcut of the executable oracle equals the plain exact sum. The L1 model replaces dec.add/sub/shl/mul/div by arithmetic, which Properties/C06 proves about the word-level code for all sizes. Word level (Properties/C01W.lean, 43; DecimalModel/L0Decimal.lean = decimal.go's round/uadd/usub/umul/uquo/ucmp/Set/SetPrec/Add/Sub/Mul/Quo transcribed at the granularity of the dec-level calls, on base-10^19 word lists through the L0 kernels of C06): round_refines, uadd_refines, usub_refines, umul_refines, uquo_refines (both division paths), ucmp_refines, set/setPrec/add/sub/mul/quo_refines - the abstraction (natOf of the words, length) of the word-level result IS the L1 result, no error on well-formed operands, well-formedness preserved; mul/quo/add/sub_correct_words - composed with the L1 theorems: the WORDS left in the receiver denote the exact result rounded once. The driver runs the word-level model on the pre-state words of every Add/Sub/Mul/Quo step and compares with the words Go left.",
 })
 
 _set('C02', {
@@ -75,7 +75,7 @@ _set('C07', {
     'design_ref': '8/C07',
     'technique': 'Lean 4 theorems over code REGENERATED from the Go source and from the amd64 assembly by tools/gen + kernel-level correspondence (CPU vs portable Go vs Lean-executed translated assembly vs L0 model vs arithmetic)',
     'note': _PNOTE + ' Additionally trusted for C07: the hand-written meaning of ~30 amd64 mnemonics in tools/gen/asm.go and lean/DecimalModel/AsmSem.lean, validated on every run by executing the translated routines in Lean on the same inputs as the CPU.',
-    'text': "Theorems (Properties/C07.lean, 27) over definitions REGENERATED on every run. (a) Portable Go: div10W_g (Granlund-Montgomery) mul10WW_g div10WW_g add10WWW_g sub10WWW_g equal their mathematical definition for all inputs in the precondition; all 18 rows of pow10DivTab64 divide every 64-bit word exactly; decDigits64, nlz10, trailingZeroDigits, tables, constants. The vector loops around them are proved for all lengths in Properties/C06 (Proofs/Vec). (b) Assembly (dec_arith_amd64.s translated to one SSA let-chain per basic block): tier A - mul10WW, div10WW, div10W equal the definition and the portable kernel for all inputs; tier B - 74 block lemmas, every block of every routine (single-step bodies = the Go word step, 4x-unrolled bodies = four steps, table row fetch incl. the 16-bit load + RORW, copy loops); tier C - whole-routine theorems for every length n < 2^60 at memory level (termination, result words, carry, all other memory untouched, destination may equal the source) for add10VV, sub10VV, mulAdd10VWW, addMul10VVW, div10VWW. PARTIAL: whole-routine theorems for add10VW, sub10VW, shl10VU, shr10VU are not proved (their block lemmas are); those are tied by execution. (c)/(d)/(e) on the real thing every run: each kernel on the CPU vs portable Go vs the Lean-executed translated assembly vs the L0 model vs arithmetic, lengths 0..70/400, all shifts, in-place and shifted-overlap destinations as dec.shl/dec.shr/dnorm use them; identical public-API transcripts under the default, decimal_pure_go and math_big_pure_go builds.",
+    'text': "Theorems (Properties/C07.lean 27 + Properties/C07b.lean 20) over definitions REGENERATED on every run. (a) Portable Go: div10W_g (Granlund-Montgomery) mul10WW_g div10WW_g add10WWW_g sub10WWW_g equal their mathematical definition for all inputs in the precondition; all 18 rows of pow10DivTab64 divide every 64-bit word exactly; decDigits64, nlz10, trailingZeroDigits, tables, constants. The vector loops around them are proved for all lengths in Properties/C06 (Proofs/Vec). (b) Assembly (dec_arith_amd64.s translated to one SSA let-chain per basic block): tier A - mul10WW, div10WW, div10W equal the definition and the portable kernel for all inputs; tier B - 74 block lemmas, every block of every routine (single-step bodies = the Go word step, 4x-unrolled bodies = four steps, table row fetch incl. the 16-bit load + RORW, copy loops); tier C - whole-routine theorems for every length n < 2^60 at memory level (termination, result words, carry, all other memory untouched, destination may equal the source) for ALL nine vector routines: add10VV, sub10VV, mulAdd10VWW, addMul10VVW, div10VWW (C07) and add10VW, sub10VW (first-word carry, early exit into the shared copy loop or immediate return when in place, 4x-unrolled loop, tail), shl10VU, shr10VU (table-driven magic division, every 64-bit word, the shifted-overlap shapes dec.shl and dec.shr use) plus the copy routines decCpy/decCpyInv (C07b); wrapper-level corollaries asm_<routine>_eq: the translated routine called with the Go ABI frame returns exactly the list-level kernel of Proofs/Vec, hence the arithmetic value. (c)/(d)/(e) on the real thing every run: each kernel on the CPU vs portable Go vs the Lean-executed translated assembly vs the L0 model vs arithmetic, lengths 0..70/400, all shifts, in-place and shifted-overlap destinations as dec.shl/dec.shr/dnorm use them; identical public-API transcripts under the default, decimal_pure_go and math_big_pure_go builds.",
 })
 
 _set('C08', {
